@@ -69,10 +69,16 @@ CLAIMED.update({
             "requested from inside an enter handler, allowed or refused (refusal swallowed by the handler or propagating); per state the "
             "enter/leave events strictly alternate and agree with the final flags. Three defects found with these obligations (uneven "
             "depth below a common ancestor; nested request while a parent is still to be entered; pending child never entered / left "
-            "without being entered) were repaired in /repo; the obligations now hold without exclusions for all forests.",
-            "Trusted: CrossHair + chx; pre-states constructed directly. NOT covered (stated, no claim): requests made concurrently from "
-            "several threads - _perform_transition has no lock; the interleaving encoding (E3) for it is not built. Outside: > 5 states, "
-            "follow-ups from leave/called handlers.",
+            "without being entered) were repaired in /repo; the obligations now hold without exclusions for all forests. (d) two "
+            "requests made concurrently (E3b): the method's current source is rewritten into a statement-stepping generator, two logical "
+            "threads run it on the real objects under a symbolic schedule (first thread, two preemption positions), a lock found in "
+            "the source is modelled; the outcome must equal one of the two serial orders of the real method. The missing mutual "
+            "exclusion found this way was repaired in /repo (57959a5).",
+            "Trusted: CrossHair + chx; pre-states constructed directly; for the concurrent clause the source-to-generator rewrite of "
+            "engine/stmt (validated on every path against the un-rewritten method, counterexamples replayed on real threads). "
+            "Concurrent clause bounds: 2 threads, <= 2 preemptions at any statement boundary of _perform_transition, callees atomic; "
+            "NOT covered: switches inside State.activate/deactivate/handlers, 3+ threads. Outside: > 5 states, follow-ups from "
+            "leave/called handlers.",
             "DESIGN.md §3 C18"),
 })
 
@@ -284,7 +290,7 @@ def main():
                   "source_commits": [], "add_only": True},
         "engines": [
             {"name": "chx+z3", "path": "engine/", "serves_properties": [c["property_id"] for c in checks],
-             "kind_free_text": "E1 CrossHair symbolic execution of the real code objects with extensions (engine/chx), E2 z3 FloatingPoint lemmas generated from source guards (engine/fp), E3 z3 schedule search over real bytecode (engine/ilv); driver engine/driver.py, one worker process per obligation"}
+             "kind_free_text": "E1 CrossHair symbolic execution of the real code objects with extensions (engine/chx), E2 z3 FloatingPoint lemmas generated from source guards (engine/fp), E3 z3 schedule search over real bytecode (engine/ilv), E3b statement-level schedules of a source-regenerated generator under CrossHair with real-thread replay (engine/stmt); driver engine/driver.py, one worker process per obligation"}
         ],
         "checks": checks,
         "not_applicable": na,
